@@ -4,13 +4,15 @@
    TraversingError wrapping the exception of a filter; by C16_machine the iterator ends exactly so, or in a
    budget exception (InfiniteLoopDetected, possibly wrapped).  The model contains the same isinstance tests and
    narrow except clauses as the code (KeyError / IndexError / TypeError of the primitives are values of PyPrim.v
-   that the vertices must catch): C16_get_match_errors lists what get_match can raise.
-   C16_set_failure / C16_root (see C08) and C16_pop (see C10): SetError / PopError.
+   that the vertices must catch): C16_get_match_exceptions lists what get_match can raise, and
+   C16_get_match_no_bare_error names the bare Python errors it therefore never raises.
+   C16_set_exceptions: set_ without cascade on a path of keys and indices raises SetError or the budget exception,
+   nothing else; C16_root (see C08) and C16_pop (see C10): SetError / PopError.
    UNDISCHARGED: printability (str()/repr() twice, same text, naming the path) rests on the correspondence,
    which renders every library exception twice on the implementation side. *)
 From Coq Require Import List ZArith String Bool PArith.
-From TP Require Import Json PyPrim Machine Api Spec SpecHas Mutate.
-From TP.proofs Require Import RefineBase Refine NextLayer Iterate WfRun Query SpecLemmas Top HasScan HasLoop HasRefine ApiTop HasLemmas MutateProofs.
+From TP Require Import Json PyPrim Machine Api Spec SpecHas Mutate SpecSet.
+From TP.proofs Require Import RefineBase Refine NextLayer Iterate WfRun Query SpecLemmas Top HasScan HasLoop HasRefine ApiTop HasLemmas MutateProofs FirstNext ExnTaxonomy.
 Import ListNotations.
 
 Theorem C16_query_ends_normally_or_in_TraversingError :
@@ -38,3 +40,26 @@ Theorem C16_must_match_never_none : forall B H depth src p tr r es,
     @get_match json jshape (fun d => d) B H depth src p true tr = (r, es) -> r <> Ok None.
 Proof. exact get_match_must. Qed.
 Print Assumptions C16_must_match_never_none.
+
+(* get_match ends in an answer or in a documented exception: never a bare KeyError / IndexError / TypeError /
+   AttributeError / ValueError *)
+Theorem C16_get_match_exceptions : forall B H depth (src : @source json) (p : list (vertex (@hpred json))) must tr e,
+  src_wf src -> valid_path (@hpred json) p = true ->
+  fst (@get_match json jshape (fun d => d) B H depth src p must tr) = Exn e ->
+  (must = true /\ e = not_found src) \/ (exists c, e = ETraversing c) \/ budget_exn e = true.
+Proof. exact get_match_exceptions. Qed.
+Print Assumptions C16_get_match_exceptions.
+
+Theorem C16_get_match_no_bare_error : forall B H depth (src : @source json) (p : list (vertex (@hpred json))) must tr e,
+  src_wf src -> valid_path (@hpred json) p = true ->
+  fst (@get_match json jshape (fun d => d) B H depth src p must tr) = Exn e ->
+  e <> EKey /\ e <> EIndex /\ e <> EType /\ e <> EAttr /\ e <> EValue.
+Proof. exact get_match_no_bare_error. Qed.
+Print Assumptions C16_get_match_no_bare_error.
+
+Theorem C16_set_exceptions : forall B H depth fuel d0 doc (pp : list (vertex (@hpred json))) v x tr nl e doc' nl' es,
+  kipath (pp ++ [v]) = true -> NoDup (labels doc) ->
+  set_match B H depth (S fuel) (SrcDoc d0) doc (pp ++ [v]) x false tr nl = (Exn e, doc', nl', es) ->
+  e = ESet \/ budget_exn e = true.
+Proof. exact set_match_plain_exceptions. Qed.
+Print Assumptions C16_set_exceptions.
